@@ -400,11 +400,154 @@ end Slicec.Gen
     return text, len(escapable) + 4
 
 
+
+def gen_hash_uses(repo):
+    """every method called on a binding / field / parameter whose declaration mentions HashMap or HashSet, in slicec/src"""
+    T = "HashUses"
+    base = os.path.join(repo, "slicec", "src")
+    if not os.path.isdir(base):
+        raise ExtractionError(T, "slicec/src", "directory missing")
+    uses = []
+    decl_pat = re.compile(r"(?:let\s+(?:mut\s+)?|\bmut\s+|\b)([a-z_][a-z0-9_]*)\s*(?::\s*[^=;,\n)]*?)?(?:=\s*[^;\n]*?)?\bHash(?:Map|Set)\b")
+    for dirpath, _, files in sorted(os.walk(base)):
+        for fn in sorted(files):
+            if not fn.endswith(".rs") or fn in ("tests.rs", "verif_hooks.rs"):
+                continue
+            rel = os.path.relpath(os.path.join(dirpath, fn), repo)
+            src = strip_test_modules(read(repo, rel, T))
+            names = set()
+            for line in src.splitlines():
+                if "Hash" not in line or line.lstrip().startswith("use "):
+                    continue
+                for m in re.finditer(r"\b([a-z_][a-z0-9_]*)\s*:\s*(?:&\s*(?:'\w+\s+)?(?:mut\s+)?)?(?:std::collections::)?Hash(?:Map|Set)\b", line):
+                    names.add(m.group(1))
+                m = re.search(r"\blet\s+(?:mut\s+)?([a-z_][a-z0-9_]*)\b[^=]*=\s*[^;]*\bHash(?:Map|Set)\b", line)
+                if m:
+                    names.add(m.group(1))
+            if not names and "Hash" in src and not re.search(r"^\s*use .*Hash", src, re.M) is None and re.search(r"Hash(?:Map|Set)", re.sub(r"^\s*use .*$", "", src, flags=re.M)):
+                raise ExtractionError(T, rel, "mentions a hash container but no binding was recognised")
+            for name in sorted(names):
+                for m in re.finditer(r"(?<![A-Za-z0-9_])(?:self\.)?" + re.escape(name) + r"\s*\.\s*([a-z_][a-z0-9_]*)\s*\(", src):
+                    uses.append((rel, name, m.group(1)))
+                for m in re.finditer(r"\bfor\b[^{;]*\bin\s+&?\s*(?:mut\s+)?(?:self\.)?" + re.escape(name) + r"\b\s*\{", src):
+                    uses.append((rel, name, "for-loop"))
+    uses = sorted(set(uses))
+    if len(uses) < 5:
+        raise ExtractionError(T, "slicec/src", "fewer hash-container uses than expected were recognised")
+    rows = ", ".join(f'("{f}", "{n}", "{m}")' for f, n, m in uses)
+    text = "-- GENERATED by translator/extract.py from slicec/src — do not edit.\nnamespace Slicec.Gen\n" \
+           "/-- (file, binding, method) for every call on a HashMap / HashSet binding in non-test code of slicec -/\n" \
+           f"def hashUses : List (String × String × String) := [{rows}]\nend Slicec.Gen\n"
+    return text, len(uses)
+
+
+def gen_emit_format(repo):
+    """C14: JSON key names in order, severity strings, human-format literals, tab expansion, pointer"""
+    T = "EmitFormat"
+    rel = "slicec/src/diagnostic_emitter.rs"
+    src = read(repo, rel, T)
+    jbody = fn_body(src, "emit_diagnostics_in_json", T, rel)
+    m = re.search(r'serialize_struct\(\s*"Diagnostic"\s*,\s*(\d+)\s*\)', jbody)
+    if not m:
+        raise ExtractionError(T, rel, "serialize_struct(\"Diagnostic\", n) not found")
+    keys = re.findall(r'\.serialize_field\(\s*"([^"\\]*)"', jbody)
+    if len(keys) != int(m.group(1)) or not keys:
+        raise ExtractionError(T, rel, f"{len(keys)} serialize_field calls for a struct announced with {m.group(1)} fields")
+    if not re.search(r"state\.end\(\)\?;\s*writeln!\(\s*self\.output\s*\)\?;", jbody):
+        raise ExtractionError(T, rel, "the object is no longer followed by exactly one writeln!(self.output)")
+    sev = dict(re.findall(r'DiagnosticLevel::(\w+)\s*=>\s*"([^"\\]*)"', jbody))
+    if set(sev) != {"Error", "Warning"} or not re.search(r"DiagnosticLevel::Allowed\s*=>\s*continue", jbody):
+        raise ExtractionError(T, rel, "severity match of emit_diagnostics_in_json not understood")
+    hbody = fn_body(src, "emit_diagnostics_in_human", T, rel)
+    pre = dict(re.findall(r'DiagnosticLevel::(\w+)\s*=>\s*console::style\(format!\("([^"\\\[]*) \[\{code\}\]"\)\)', hbody))
+    if set(pre) != {"Error", "Warning"} or not re.search(r"DiagnosticLevel::Allowed\s*=>\s*continue", hbody):
+        raise ExtractionError(T, rel, "prefix match of emit_diagnostics_in_human not understood")
+    fmts = re.findall(r'writeln!\(\s*self\.output\s*,\s*"([^"]*)"', hbody)
+    note = re.search(r'console::style\("([^"\\]*)"\)\.blue\(\)\.bold\(\)', hbody)
+    if fmts != ["{prefix}: {}", "{}: {}"] or not note:
+        raise ExtractionError(T, rel, f"format strings of emit_diagnostics_in_human changed: {fmts}")
+    sbody = fn_body(src, "emit_snippet", T, rel)
+    sf = re.findall(r'writeln!\(\s*self\.output\s*,\s*"([^"]*)"', sbody)
+    arrow = re.search(r'console::style\("([^"\\]*)"\)', sbody)
+    if sf != [" {} {}:{}:{}", "{}"] or not arrow:
+        raise ExtractionError(T, rel, f"format strings of emit_snippet changed: {sf}")
+    if "#[serde(" in src:
+        raise ExtractionError(T, rel, "serde attributes are not modelled")
+
+    def struct_fields(rel2, name):
+        raw = read(repo, rel2, T)
+        if "#[serde(" in raw:
+            raise ExtractionError(T, rel2, "serde attributes are not modelled")
+        mm = re.search(r"#\[derive\(([^)]*)\)\]\s*pub struct " + name + r"\s*\{", raw)
+        if not mm or "Serialize" not in mm.group(1):
+            raise ExtractionError(T, rel2, f"`#[derive(Serialize ..)] pub struct {name}` not found")
+        body = block_after(raw, mm.end() - 1)
+        fields = re.findall(r"(?:pub(?:\([^)]*\))?\s+)?(\w+)\s*:\s*[^,]+,?", body or "")
+        if not fields:
+            raise ExtractionError(T, rel2, f"no fields in struct {name}")
+        return fields
+
+    # slice_file.rs contains a raw string r"/\" that confuses comment stripping: cut the file before it
+    rel_sf = "slicec/src/slice_file.rs"
+    pth = os.path.join(repo, rel_sf)
+    if not os.path.exists(pth):
+        raise ExtractionError(T, rel_sf, "file missing")
+    raw_sf = open(pth, encoding="utf-8").read()
+    tab = re.search(r'const EXPANDED_TAB: &str = "( *)";', raw_sf)
+    ptr = re.search(r'style\(r"([^"]*)"\.to_owned\(\)\)', raw_sf)
+    if not tab or not ptr:
+        raise ExtractionError(T, rel_sf, "EXPANDED_TAB or the start==end pointer literal not found")
+    head = raw_sf[:raw_sf.find("impl SliceFile")]
+    if "#[serde(" in raw_sf:
+        raise ExtractionError(T, rel_sf, "serde attributes are not modelled")
+
+    def struct_fields_raw(text, name):
+        mm = re.search(r"#\[derive\(([^)]*)\)\]\s*pub struct " + name + r"\s*\{([^}]*)\}", text)
+        if not mm or "Serialize" not in mm.group(1):
+            raise ExtractionError(T, rel_sf, f"`#[derive(Serialize ..)] pub struct {name}` not found")
+        body = re.sub(r"//[^\n]*", "", mm.group(2))
+        return re.findall(r"pub\s+(\w+)\s*:", body)
+
+    loc = struct_fields_raw(head, "Location")
+    span = struct_fields_raw(head, "Span")
+    notef = struct_fields("slicec/src/diagnostics/mod.rs", "Note")
+
+    def q(x):
+        return '"' + x.replace("\\", "\\\\").replace('"', '\\"') + '"'
+
+    def lst(xs):
+        return "[" + ", ".join(q(x) for x in xs) + "]"
+    text = f"""-- GENERATED by translator/extract.py from slicec/src/diagnostic_emitter.rs, slice_file.rs, diagnostics/mod.rs — do not edit.
+namespace Slicec.Gen
+/-- `serialize_field` names of `emit_diagnostics_in_json`, in call order -/
+def diagKeys : List String := {lst(keys)}
+/-- field names of the `Serialize`-derived structs, in declaration order -/
+def locKeys : List String := {lst(loc)}
+def spanKeys : List String := {lst(span)}
+def noteKeys : List String := {lst(notef)}
+def severityError : String := {q(sev["Error"])}
+def severityWarning : String := {q(sev["Warning"])}
+/-- `format!("<prefix> [{{code}}]")` of `emit_diagnostics_in_human` -/
+def errorPrefix : String := {q(pre["Error"])}
+def warningPrefix : String := {q(pre["Warning"])}
+def notePrefix : String := {q(note.group(1))}
+/-- `console::style("-->")` of `emit_snippet` -/
+def arrow : String := {q(arrow.group(1))}
+/-- `EXPANDED_TAB` and the marker of an empty highlight in slice_file.rs -/
+def expandedTab : String := {q(tab.group(1))}
+def pointer : String := {q(ptr.group(1))}
+end Slicec.Gen
+"""
+    return text, len(keys) + len(loc) + len(span) + len(notef) + 8
+
+
 TABLES = {
+    "EmitFormat": gen_emit_format,
     "PluginSpec": gen_plugin_spec,
     "VarintArms": gen_varint_arms,
     "CodecPanics": gen_codec_panics,
     "Keywords": gen_keywords,
+    "HashUses": gen_hash_uses,
 }
 
 
